@@ -1,6 +1,6 @@
 \* as-built (deferred BEGIN in the structure check): expected to violate NoDbError
 CONSTANTS Procs = {1,2} SameText = TRUE InitModels = "absent" InitMeta = "absent" InitRows = {}
-  TouchOnHit = TRUE SharedInited = FALSE DeferredSchemaTxn = TRUE
+  TouchOnHit = TRUE SharedInited = FALSE LockedCountsAsCorrupt = FALSE AllowTimeout = FALSE DeferredSchemaTxn = TRUE
 INIT Init
 NEXT Next
 VIEW View
